@@ -136,6 +136,30 @@ theorem quit_exchange (c : Connection S) (rest : Bytes) :
     (dispatch_quit_iff E cp pc coldef parse app ur fls fcd other _ _ rest).mpr rfl
   simp only [command_step, hu, Bool.false_eq_true, if_false, hd]
 
+/-- **an unsupported command byte is answered by exactly one ERR**: nothing else is written, nothing else changes, the loop
+    goes on -/
+theorem unsupported_exchange (c : Connection S) (command : UInt8) (rest : Bytes) (h : command.toNat ∉ dispatched) :
+    command_step E cp pc coldef parse app ur fls fcd other err af c (command :: rest)
+      = ({ c with _executing := false, out := c.out ++ [Ev.write (err { c with _executing := false }) true, Ev.reset_seq] }, true) := by
+  have hu : untranslated.contains command.toNat = false := by
+    have h17 : command.toNat ≠ 17 := fun e => h (by rw [e]; decide)
+    simp [untranslated, h17]
+  have hd := dispatch_unsupported E cp pc coldef parse app ur fls fcd other ({ c with _executing := true } : Connection S) command.toNat rest h
+  simp only [command_step, hu, Bool.false_eq_true, if_false, hd, List.append_assoc, List.cons_append, List.nil_append]
+
+/-- **COM_PING is answered by exactly one OK** (drained), nothing else changes, the loop goes on — whatever follows the command byte -/
+theorem ping_exchange (c : Connection S) (rest : Bytes) :
+    ∃ (e : Bool) (a l w f : Nat), command_step E cp pc coldef parse app ur fls fcd other err af c (14 :: rest)
+      = ({ c with _executing := false,
+                  out := c.out ++ [Ev.write (ok ({ c with _executing := true } : Connection S) e a l w f) true, Ev.reset_seq] }, true) := by
+  have hu : untranslated.contains (14 : UInt8).toNat = false := by decide
+  obtain ⟨⟨e, a, l, w, f, hp⟩, _, _⟩ := simple_handlers_spec ({ c with _executing := true } : Connection S) rest
+  refine ⟨e, a, l, w, f, ?_⟩
+  have hd : dispatch E cp pc coldef parse app ur fls fcd other ({ c with _executing := true } : Connection S) (14 : UInt8).toNat rest
+      = (handle_ping ({ c with _executing := true } : Connection S) rest).map some := by
+    simp [dispatch]
+  simp only [command_step, hu, Bool.false_eq_true, if_false, hd, hp, Except.map, List.append_assoc, List.cons_append, List.nil_append]
+
 /-- the loop, one packet at a time -/
 theorem loop_cons (c : Connection S) (p : Bytes) (ps : List Bytes) :
     command_loop E cp pc coldef parse app ur fls fcd other err af c (p :: ps)
